@@ -35,6 +35,7 @@ type Monitor struct {
 	block1Changed bool
 	tmKind        string
 	ref           *evmRef
+	refBurn       *big.Int // burn of the current contract tx according to the reference EVM run (nil = unknown)
 	collisionSeen bool
 	genesisDump   string
 	Checks     map[string]int
@@ -290,6 +291,7 @@ func (m *Monitor) OnDeliver(s *apphist.Sim, bz []byte, preD, postD string, o app
 	tx := &ctrlertypes.Trx{}
 	decodable := tx.Decode(bz) == nil
 	hash := appdrv.Hex(tmtypes.Tx(bz).Hash())
+	m.refBurn = nil
 	if m.ref != nil {
 		m.checkRef(s, Parse(postD), o, tr)
 	}
@@ -393,6 +395,13 @@ func (m *Monitor) OnDeliver(s *apphist.Sim, bz []byte, preD, postD string, o app
 	if isEvm {
 		// the EVM may burn (self-destruct to self); everything else must be conserved
 		burn := new(big.Int).Sub(expTotal, dTotal)
+		if m.refBurn != nil {
+			// the reference EVM run tells exactly how much this transaction burns
+			if burn.Cmp(m.refBurn) != 0 {
+				m.fail(s, "C02", "evm-value-mismatch", fmt.Sprintf("contract tx %s changed balances+stakes by %s (fee %s): %s vanished, the reference EVM run burns %s", hash, dTotal, fee, burn, m.refBurn))
+			}
+			m.refBurn = nil
+		}
 		if burn.Sign() < 0 {
 			m.fail(s, "C16", "contract-charge", fmt.Sprintf("contract tx %s: all balances together changed by %s, a charge of exactly gas used x price = %s was due (somebody was credited inside the EVM or the sender under-charged)", hash, dTotal, fee))
 			m.fail(s, "C02", "evm-creates-value", fmt.Sprintf("contract tx %s increased the total value by %s", hash, new(big.Int).Neg(burn)))
@@ -829,6 +838,9 @@ func (m *Monitor) OnCommit(s *apphist.Sim, post string, hash []byte) {
 	// ---- C15 parameter changes only when scheduled; active equals the query
 	if st.Active != m.lastActive && !m.pendingChg {
 		m.fail(s, "C15", "unscheduled-change", fmt.Sprintf("active parameters changed at commit %d without a scheduled proposal: %s -> %s", s.Height, m.lastActive, st.Active))
+	}
+	if st.Active != m.lastActive {
+		m.ok("C15.params-changed")
 	}
 	m.pendingChg = false
 	m.lastActive = st.Active
